@@ -107,13 +107,13 @@ pub fn build_spec(property: &str, tier: &str, seed: u64) -> Option<Spec> {
             let phases: Vec<Box<dyn Phase>> = vec![Box::new(c14::C14Search { runs: runs(600_000, 20_000_000, tier), max_len: if thorough { 200 } else { 40 } })];
             Some(Spec {
                 property: "C14", level: "exploration", phases,
-                rule: "twin-history-search: the C06 workload (seeded histories with cancellation points and simulator-chosen hash behaviour); at 1-3 checkpoints per history the object's own observed entry list is rebuilt by nine other routes (from_vec, pushes, reversed push_front, chunked extend, superset with junk entries removed again under random cancellation, clone, into_iter/collect, null-then-iter_mut, inserts) each under a fresh hash seed and mode, and object, Value::Object and Value::Array wrappers must be ==, compare Equal both ways (cmp and partial_cmp) and hash identically under SipHash and FNV-1a; five near copies (one value / one key changed, entry duplicated, removed, adjacent swapped) must be unequal, not Equal, antisymmetric; a pool of up to 16 snapshots, near copies and plain values is checked pairwise (== iff structurally identical by an independent walk, Equal iff ==, antisymmetry, partial_cmp agrees, equal => same hash) and triple-wise (transitivity). A case is one history with its twin seed; distinct = distinct digest; non-trivial = at least one compared twin had an index dump (bucket count or bucket contents) different from the original's, i.e. the internal state really differed when equality was asked.".into(),
+                rule: "twin-history-search: the C06 workload (seeded histories with cancellation points and simulator-chosen hash behaviour); at 1-3 checkpoints per history the object's own observed entry list is rebuilt by ten other routes (from_vec, pushes, reversed push_front, chunked extend, superset with junk entries removed again under random cancellation, clone, into_iter/collect, null-then-iter_mut, inserts, Clone::clone_from onto an object with another history) each under a fresh hash seed and mode, and object, Value::Object and Value::Array wrappers must be ==, compare Equal both ways (cmp and partial_cmp) and hash identically under SipHash and FNV-1a; five near copies (one value / one key changed, entry duplicated, removed, adjacent swapped) must be unequal, not Equal, antisymmetric; a pool of up to 16 snapshots, near copies and plain values is checked pairwise (== iff structurally identical by an independent walk, Equal iff ==, antisymmetry, partial_cmp agrees, equal => same hash) and triple-wise (transitivity). A case is one history with its twin seed; distinct = distinct digest; non-trivial = at least one compared twin had an index dump (bucket count or bucket contents) different from the original's, i.e. the internal state really differed when equality was asked.".into(),
                 assumptions: vec![
                     "ground truth is the object's own observed entry list, never the C06 model; twins whose construction does not reproduce that list are skipped (a C06 matter)".into(),
                     "no particular order is required, only the laws; unequal values may hash alike".into(),
                     "structural identity defers to the leaf types' own == (json-number, smallstr)".into(),
                 ],
-                matrix: ("twin_route", vec!["from_vec", "push_in_order", "push_front_in_reverse", "chunked_extend", "superset_then_remove_junk", "clone", "into_iter_collect", "null_then_iter_mut", "insert_in_order_if_unique_keys"], "-", vec!["compared"], vec!["count"]),
+                matrix: ("twin_route", vec!["from_vec", "push_in_order", "push_front_in_reverse", "chunked_extend", "superset_then_remove_junk", "clone", "into_iter_collect", "null_then_iter_mut", "insert_in_order_if_unique_keys", "clone_from_onto_other_history"], "-", vec!["compared"], vec!["count"]),
                 components_real: vec!["Eq / Ord / PartialOrd / Hash of json_syntax::Object, Value, Entry", "Object operations used to reach states"],
                 components_stub: vec!["the hash builder of the key index (seed and behaviour per object chosen by the simulator)"],
                 crash_is_violation: false,
